@@ -25,7 +25,7 @@ TRUSTED = ['pandas DataFrame.corr: assumed contract (Pearson correlation matrix:
 INV_EPS64 = ir.const(1 / EPS64)
 
 
-def corr_replay(env):
+def corr_replay(env, families=None):
     import numpy as np
     import pandas as pd
     import warnings
@@ -44,16 +44,25 @@ def corr_replay(env):
         'constant': pd.DataFrame({'p': a, 'k': np.full(300, 2.5), 'q': rs.normal(size=300)}),
         'unsorted labels': pd.DataFrame({'z': a, 'b': a ** 3, 'm': rs.normal(size=300)}),
     }
-    for name, X in list(tables.items()) + [(k + ' (instance prototype)', v) for k, v in tables.items()]:
+    cases = list(tables.items()) + [(k + ' (instance prototype)', v) for k, v in tables.items()]
+    if families:
+        # marginal families whose fitted CDF does not reproduce the shape of the data: the normal scores are then not
+        # standardised, which is exactly when a correlation and a covariance of the scores differ
+        import copulas.univariate as cu
+        cases = [('%s [%s marginals]' % (k, f), v) for f in families for k, v in tables.items() if k in ('outlier', 'constant')]
+    for name, X in cases:
         proto = GaussianUnivariate()
-        m = GaussianMultivariate(distribution=proto if name.endswith('prototype)') else GaussianUnivariate)
+        dist = proto if name.endswith('prototype)') else GaussianUnivariate
+        if families:
+            dist = getattr(cu, name.split('[')[1].split(' ')[0])
+        m = GaussianMultivariate(distribution=dist)
         m.fit(X)
         R = m.correlation
         if len({id(u) for u in m.univariates}) != len(m.univariates) or any(u is proto for u in m.univariates):
             bad.append('%s: columns share one marginal object' % name)
         for col, u in zip(X.columns, m.univariates):
             pr = u.to_dict()
-            if 'loc' in pr and X[col].nunique() > 1 and not np.isclose(pr['loc'], X[col].mean(), rtol=1e-9, atol=1e-12):
+            if type(u).__name__ == 'GaussianUnivariate' and 'loc' in pr and X[col].nunique() > 1 and not np.isclose(pr['loc'], X[col].mean(), rtol=1e-9, atol=1e-12):
                 bad.append('%s: marginal of column %s has loc %.6g, the column mean is %.6g' % (name, col, pr['loc'], X[col].mean()))
         if list(R.columns) != list(X.columns) or list(R.index) != list(X.columns):
             bad.append('%s: labels %r' % (name, list(R.columns)))
@@ -76,7 +85,22 @@ def corr_replay(env):
     return {'confirmed': bool(bad), 'detail': '; '.join(bad) if bad else 'native correlation matches the contract'}
 
 
+def bounded_marginal_families(chk):
+    """BOUNDED native stand-in: the deductive part runs Gaussian and Uniform marginals through their contracts; here the fitted
+    matrix is recomputed natively from the model's own marginals for further families, on the replay tables."""
+    fams = ('UniformUnivariate', 'GaussianKDE', 'GammaUnivariate') if chk.tier == 'quick' else \
+        ('UniformUnivariate', 'GaussianKDE', 'GammaUnivariate', 'BetaUnivariate', 'StudentTUnivariate', 'TruncatedGaussian')
+    r = corr_replay({}, families=fams)
+    if r['confirmed']:
+        chk.bounded_violation('C02.correlation.marginal_families.bounded', {'families': list(fams)}, r['detail'])
+    chk.bounded.append({'name': 'C02.correlation.marginal_families.bounded', 'clause': 'labels, entries = Pearson correlation of the '
+                        'normal scores (unit diagonal), ridge iff ill-conditioned, usable for sample / pdf / cdf',
+                        'bound': 'marginal families %r x tables (outlier, constant column), 300 rows' % (fams,),
+                        'evaluations': 2 * len(fams), 'distinct_nontrivial': 2 * len(fams), 'rule': 'one case = (family, table)'})
+
+
 def build(chk):
+    bounded_marginal_families(chk)
     I0 = engine.new_interp()
     src = I0.source
     chk.under_contract(src, [GM + '.' + f for f in ('fit', '_validate_input', '_fit_columns', '_get_distribution_for_column',
